@@ -903,6 +903,25 @@ func (x *vc) needMax0() {
 	x.decls = append(x.decls, "(define-fun max0 ((a Int)) Int (ite (< a 1) 1 a))")
 }
 
+// needRunesBefore: runes_before(s, p) counts the runes of s that start before byte offset p, along the exact UTF-8
+// decoding spec str_width (the function utf8.DecodeRuneInString / range-over-string realise): 0 at 0, one more after
+// each decoded rune, rune_count(s) at len(s). This is the definition of "number of code points" (trusted as such).
+func (x *vc) needRunesBefore() {
+	for _, d := range x.decls {
+		if strings.HasPrefix(d, "(declare-fun runes_before ") {
+			return
+		}
+	}
+	x.trusted["runes_before / rune_count: code points counted along the UTF-8 decoding spec (definition of utf8.RuneCountInString)"] = true
+	// rune_start(s, p): p is the offset of a rune of s in the decoding that starts at 0 (the recurrence must not be
+	// stated for offsets inside a rune: it would be inconsistent there)
+	x.decls = append(x.decls, "(declare-fun runes_before (Str Int) Int)", "(declare-fun rune_start (Str Int) Bool)")
+	x.asserts = append(x.asserts,
+		// (guarded by slen >= 0: Str is a free datatype, terms with a negative length exist and must not be constrained)
+		"(assert (forall ((s Str)) (! (=> (>= (slen s) 0) (and (rune_start s 0) (= (runes_before s 0) 0) (= (runes_before s (slen s)) (rune_count s)) (<= 0 (rune_count s)) (<= (rune_count s) (slen s)))) :pattern ((rune_count s)))))",
+		"(assert (forall ((s Str) (p Int)) (! (=> (and (rune_start s p) (<= 0 p) (< p (slen s))) (and (rune_start s (+ p (str_width s p))) (= (runes_before s (+ p (str_width s p))) (+ (runes_before s p) 1)) (<= 0 (runes_before s p)) (< (runes_before s p) (rune_count s)))) :pattern ((rune_start s p)))))")
+}
+
 func (x *vc) needRuneCount() {
 	for _, d := range x.decls {
 		if strings.HasPrefix(d, "(declare-fun rune_count ") {
